@@ -83,7 +83,7 @@ func (m *ModelServer) relativeAdjustment(relative map[string]int32) resource.Upd
 			// find the value index in our supported values, and adjust the value to the new index based on adjustment
 			for i, value := range values {
 				if value.Name == oldValue {
-					newI := (int32(i) + adjustment) % int32(len(values))
+					newI := int32((int64(i) + int64(adjustment)) % int64(len(values))) // (the sum of two int32 may not fit one)
 					if newI < 0 {
 						newI = int32(len(values)) + newI
 					}
